@@ -25,7 +25,8 @@ XKEY == <<88, 45, 75, 101, 121>>   \* "X-Key"
 xkey == <<120, 45, 107, 101, 121>> \* "x-key"
 KQ   == <<107>>                    \* "k"
 
-In0 == [op |-> <<>>, def |-> <<>>, authz |-> <<>>, hdrs |-> <<>>, query |-> <<>>, form |-> <<>>, media |-> "none"]
+In0 == [op |-> <<>>, def |-> <<>>, authz |-> <<>>, hdrs |-> <<>>, query |-> <<>>, form |-> <<>>, media |-> "none",
+        static |-> <<>>, debug |-> FALSE, transport |-> "direct"]
 Auth(kind, name, loc, realm, scopes, cberr) == [kind |-> kind, name |-> IF kind = "bearer" THEN <<>> ELSE name, scheme |-> IF kind = "bearer" THEN name ELSE "",
                                                in |-> loc, realm |-> realm, scopes |-> scopes, cberr |-> cberr]
 A0 == Auth("basic", <<>>, "", "", <<>>, FALSE)
@@ -59,6 +60,9 @@ AuthPool   == { Auth("basic", <<>>, "", r, <<>>, e) : r \in {"", "realm"}, e \in
               \cup { Auth("apikey", n, "query", "", <<>>, e) : n \in {KQ, ACCESS}, e \in BOOLEAN }
               \cup { Auth("bearer", "oauth", "", "", sc, e) : sc \in {<<>>, <<"read", "write">>}, e \in BOOLEAN }
 
+SK(n) == <<115, 48 + n>>   \* "s1".."s3": values of static query parameters
+StaticPool == { <<[k |-> KQ, v |-> SK(1)]>>, <<[k |-> ACCESS, v |-> SK(2)]>>, <<[k |-> KQ, v |-> SK(1)], [k |-> KQ, v |-> SK(3)]>> }
+
 StartStructure == track = "start" /\ track' = "structure" /\ UNCHANGED <<in, A>>
 AddOp ==
   /\ track = "structure" /\ Len(in.op) < 2 /\ in.def = <<>>
@@ -74,6 +78,8 @@ Preset ==
      \/ in.hdrs = <<>> /\ in' = [in EXCEPT !.hdrs = <<[k |-> XKEY, v |-> T(7)]>>]
      \/ in.query = <<>> /\ \E v \in {T(8), <<>>} : in' = [in EXCEPT !.query = <<[k |-> ACCESS, v |-> v]>>]
      \/ in.form = <<>> /\ \E m \in {"urlencoded", "multipart", "none"} : in' = [in EXCEPT !.form = <<[k |-> ACCESS, v |-> T(9)]>>, !.media = m]
+     \* static query parameters of the base path / path pattern named like a query API key or like the bearer token parameter
+     \/ in.static = <<>> /\ \E st \in StaticPool : in' = [in EXCEPT !.static = st]
   /\ UNCHANGED <<track, A>>
 PickAuth ==
   /\ track = "structure"
